@@ -65,6 +65,8 @@ class Ctx:
                 return
         h = hashlib.sha256(json.dumps(key, sort_keys=True).encode()).hexdigest()[:12]
         path = os.path.join(REPLAYS, '%s-%s.json' % (self.prop, h))
+        if any(p == path for p, _ in self.violations):
+            return      # the same violation (same key) observed again
         payload = dict(payload)
         payload['property'] = self.prop
         payload['key'] = key
